@@ -176,10 +176,44 @@ def corpus_cases(pids):
     return out
 
 
-def run_stream(chk, n, flavors=None, corpus=("C01", "C02", "C03", "C04")):
+def exhaustive_txns(values, nposts, precs):
+    """every transaction of `nposts` postings over 3 commodities x `values` x {plain, @ rate, @@ total, {lot}}
+    (+ one variant with an omitted last posting), for each precision setting"""
+    import itertools
+    coms = ["AAA", "BBB", "CCC"]
+    kinds = ["", "@", "@@", "{}"]
+    single = []
+    for c in coms:
+        other = coms[(coms.index(c) + 1) % 3]
+        for v in values:
+            for k in kinds:
+                amt = "%s %s" % (v, c)
+                if k == "@":
+                    amt += " @ 2 %s" % other
+                elif k == "@@":
+                    amt += " @@ 2 %s" % other
+                elif k == "{}":
+                    amt += " {2 %s}" % other
+                single.append(amt)
+    out = []
+    for prec in precs:
+        head = "".join("commodity %s\n    format %s %s\n\n" % (c, "1" if prec == 0 else "1." + "0" * prec, c) for c in coms) if prec is not None else ""
+        for combo in itertools.product(single, repeat=nposts):
+            body = "".join("    Acct%d  %s\n" % (i, a) for i, a in enumerate(combo))
+            out.append(head + "2024/01/01 x\n" + body)
+        for combo in itertools.product(single, repeat=nposts - 1):
+            body = "".join("    Acct%d  %s\n" % (i, a) for i, a in enumerate(combo))
+            out.append(head + "2024/01/01 x\n" + body + "    Rest\n")
+    return out
+
+
+def run_stream(chk, n, flavors=None, corpus=("C01", "C02", "C03", "C04"), exhaustive=None):
     """runs the stream; returns records: dict(id, text, meta, impl, agree, model, mismatches, info)"""
     g = Gen(chk.rng)
     cases = corpus_cases(corpus)
+    if exhaustive:
+        for k, text in enumerate(exhaustive):
+            cases.append(("x%d" % k, text, {"flavors": ["exhaustive"]}))
     for i in range(n):
         fl = None
         if flavors and chk.rng.random() < 0.6:
